@@ -244,6 +244,20 @@ func (c *Cmd) Start() error {
 	if v, ok := p.Spec["touch"]; ok {
 		os.WriteFile(filepath.Join(c.Dir, v), []byte("made by "+strings.Join(c.Args[1:], " ")+"\n"), 0o666)
 	}
+	if d, ok := parseDur(p.Spec["errevery"]); ok && d > 0 && c.Stderr != nil {
+		// a program that keeps complaining on stderr for as long as it lives
+		var tick func()
+		tick = func() {
+			p.mu.Lock()
+			alive := !p.Exited
+			p.mu.Unlock()
+			if alive {
+				io.WriteString(p.stderr, "still busy\n")
+				time.AfterFunc(d, tick)
+			}
+		}
+		time.AfterFunc(d, tick)
+	}
 	code, _ := strconv.Atoi(p.Spec["code"])
 	if d, ok := parseDur(p.Spec["run"]); ok {
 		p.exitAfter(d, &ProcessState{code: code})
@@ -433,6 +447,54 @@ func (p *Proc) DescendantAlive(at time.Duration) bool {
 	p.mu.Lock()
 	defer p.mu.Unlock()
 	return p.Exited && p.DescUntil > at
+}
+
+// stdinPipe is the write end of a pipe to the process's standard input. Stub processes do not read
+// their input (except stdin=echo), so once the kernel's pipe buffer (64 KiB) is full a write blocks
+// until the process is gone, and then fails.
+type stdinPipe struct {
+	c      *Cmd
+	n      int
+	closed bool
+}
+
+func (w *stdinPipe) Write(b []byte) (int, error) {
+	p := w.c.proc
+	exited := func() bool {
+		if p == nil {
+			return false
+		}
+		p.mu.Lock()
+		defer p.mu.Unlock()
+		return p.Exited
+	}
+	if w.closed {
+		return 0, os.ErrClosed
+	}
+	if exited() {
+		return 0, syscall.EPIPE
+	}
+	w.n += len(b)
+	if w.n > 65536 && (p == nil || p.Spec["stdin"] != "echo") {
+		if _, t := simrt.Current(); t != nil {
+			simrt.Block("proc.stdin-pipe-full", exited)
+			return 0, syscall.EPIPE
+		}
+	}
+	return len(b), nil
+}
+
+func (w *stdinPipe) Close() error { w.closed = true; return nil }
+
+// StdinPipe returns a pipe connected to the command's standard input.
+func (c *Cmd) StdinPipe() (io.WriteCloser, error) {
+	if c.Stdin != nil {
+		return nil, fmt.Errorf("exec: Stdin already set")
+	}
+	if c.Process != nil {
+		return nil, fmt.Errorf("exec: StdinPipe after process started")
+	}
+	return &stdinPipe{c: c}, nil
 }
 
 func (c *Cmd) Output() ([]byte, error) { return nil, fmt.Errorf("simexec: Output not supported") }
